@@ -199,6 +199,13 @@ pub fn drive_request(
                     hex(&d.output), hex(exp));
             }
         }
+        {
+            // abstract state: (final?, free-space class, output pending, chunk class)
+            let sp = parser.input_buffer().len();
+            let cls = if sp == 0 { 0 } else if sp < 8 { 1 } else if sp < space / 2 { 2 } else { 3 };
+            let kc = if k == 0 { 0 } else if k == 1 { 1 } else if k < 8 { 2 } else if k == space { 3 } else { 4 };
+            cx.state(fnv_u64(u64::from(done), fnv_u64(cls, fnv_u64(u64::from(!out.is_empty()), fnv_u64(kc, 0x51)))));
+        }
         if done {
             d.done = true;
             return Ok(d);
